@@ -24,7 +24,7 @@ META = dict(
          "attenuation and density thresholds not smaller; an absent optional threshold is the loosest value) is "
          "compared pointwise: severity GOOD<SUSPECT<FAIL must not decrease and the UNKNOWN / MISSING position sets must "
          "be identical. states = (series, lattice point) executions, transitions = comparable pairs compared. "
-         "non-trivial = the pair's flag vectors differ",
+         "Scale: 3000-point records per test (1300-fix tracks), flat-line and attenuation lattices with durations of 1..100 sampling steps on regular, gappy and bursty axes. non-trivial = the pair's flag vectors differ",
     bounds={"quick": "series lengths: spike<=4, flat<=5, others<=3; lattices of 9-45 points per test",
             "thorough": "series lengths one more than quick"},
     not_judged=["pairs whose parameter sets are not comparable", "configurations the function rejects (suspect span outside fail span)"],
